@@ -48,6 +48,22 @@ class World:
 
     def make(self, kind: str, holder: str):
         G = self.grids["G"]
+        if kind == "SEQ":
+            # sequential composite of two displacement fields whose parameters are predicted from the conditioning
+            import deepali.spatial as S
+
+            world = self
+            children = []
+            for _ in range(2):
+                ref = [None]
+
+                def predict(c=0, ref=ref):
+                    return world.params_for(ref[0], c)
+
+                ch = S.DisplacementFieldTransform(G, params=predict)
+                ref[0] = ch
+                children.append(ch)
+            return S.SequentialTransform(*children)
         kw = {}
         if kind in ("FFD", "SVFFD"):
             kw["stride"] = 4
@@ -85,7 +101,7 @@ class World:
         from deepali.core.grid import Axes
 
         w = t.grid().transform_vectors(vec.reshape(1, -1).to(torch.float32), axes=t.axes(), to_axes=Axes.WORLD)[0]
-        v = float(w[0]) / DELTA
+        v = float(w[0]) / DELTA / (2.0 if self.kind == "SEQ" else 1.0)  # SEQ: two equal members add up
         if not math.isfinite(v) or abs(v - round(v)) > 0.02 or float(w[1:].abs().max()) > 0.02 * DELTA:
             return GARBAGE
         return int(round(v))
@@ -121,7 +137,10 @@ class World:
         elif a == "grid_":
             t.grid_(self.grids[arg])
         elif a == "condition_":
-            t.condition_(arg)
+            if step.get("kw"):
+                t.condition_(c=arg)
+            else:
+                t.condition_(arg)
         elif a == "clear_buffers":
             t.clear_buffers()
         elif a == "inverse":
@@ -136,11 +155,15 @@ class World:
         elif a == "grid":
             self.objs[new] = t.grid(self.grids[arg])
         elif a == "condition":
-            self.objs[new] = t.condition(arg)
+            self.objs[new] = t.condition(c=arg) if step.get("kw") else t.condition(arg)
         elif a == "deepcopy":
             self.objs[new] = _copy.deepcopy(t)
         else:
             raise ValueError(f"unknown action {a}")
+        if new and not isinstance(self.objs.get(new), type(t)):
+            got = type(self.objs.get(new)).__name__
+            del self.objs[new]
+            raise TypeError(f"{a}() returned a {got} instead of a new {type(t).__name__}")
         return None
 
     def check_grid(self, step: Dict[str, Any]) -> Optional[str]:
